@@ -12,6 +12,13 @@ NOTE = ("Trusted: Coq 8.16.1 kernel (full .vo build, vm_compute for finite sweep
         "regenerated from /repo on every run (defs.jq parse trees, native registry). Third-party crates are modelled by contract.")
 
 CLAIMED = {
+    "C18": ("Partial. Theorems about the model of the in-place block (Cli/InPlace.v): at every prefix of the operation sequence (every "
+            "crash point) the file holds its old bytes or - only after success - exactly the complete output; after success the output, "
+            "the old permission bits and no temporary file; after failure the file untouched and no temporary file. Tie: final directory "
+            "states and strace syscall sequences of the binary on 14 scenarios (1-3 files, modes, relative/absolute paths, filter errors, "
+            "parse errors) against the model; fault enumeration: SIGKILL injected at every write/rename/chmod/open call and EIO at every "
+            "write/rename. Not covered: crash consistency below the syscall layer (no fsync).", "7.18",
+            "Coq proof (operation-sequence model) + syscall-trace correspondence + fault enumeration (partial)"),
     "C17": ("Partial. Theorems about the model of the main loop (Cli/Main.v): outputs are written completely and in order, what was "
             "written before an error stays written, output options change only the rendering and never the outcome, the exit status "
             "table. Correspondence: the jaq binary (built from /repo every run) on option sets x filters x stdin streams (valid, "
